@@ -198,6 +198,10 @@ def run_tree(history, tree, frac=False, recalc_history=None):
                 text = r.unit if hasattr(r, "_unit") else ""
             except RecursionError:
                 return {"exc": "rec", "exact": True}
+            except CaseInvalid:
+                raise
+            except Exception as e:  # noqa  -- the library itself failed on this input
+                return {"exc": "crash", "what": "{}: {}".format(type(e).__name__, str(e)[:120]), "exact": True}
         if not hasattr(r, "_unit"):
             raise CaseInvalid("the tree is a plain number")
         warned = any(MISMATCH_TEXT in str(x.message) for x in w)
@@ -220,6 +224,10 @@ def observe_use(tree, events_so_far, frac=False):
             text = r.unit if hasattr(r, "_unit") else ""
         except RecursionError:
             return {"exc": "rec", "exact": True}
+        except CaseInvalid:
+            raise
+        except Exception as e:  # noqa  -- the library itself failed on this input
+            return {"exc": "crash", "what": "{}: {}".format(type(e).__name__, str(e)[:120]), "exact": True}
     if not hasattr(r, "_unit"):
         raise CaseInvalid("the tree is a plain number")
     warned = any(MISMATCH_TEXT in str(x.message) for x in w)
@@ -1008,6 +1016,8 @@ def oracle_check(history, tree, frac=False):
 
 def judge(obs, exp, defs, tree, frac=False):
     """compare one observation of a tree with the expected outcome exp = o_dim(tree, defs)"""
+    if obs.get("exc") == "crash":
+        return "building the tree raised {}".format(obs["what"])
     if obs.get("exc"):
         return "building the tree raised RecursionError although the definitions are acyclic"
     if not obs["exact"]:
